@@ -5,12 +5,15 @@
    The algebraic core (eliminant by resultants, interval evaluation, root selection) is NOT proved: it is validated
    on every run against the reference evaluation by denotation (level translation_validation). *)
 From Coq Require Import ZArith NArith List Bool QArith Qcanon.
-From LP Require Import Scalar UPoly MPoly EvalSgn EvalSgnScGen EvalSgnProofs History_C10.
+From LP Require Import Scalar ScalarProofs UPoly MPoly IntervalArith IntervalArithProofs EvalSgn EvalSgnScGen EvalSgnProofs
+  EvalSgnApprox EvalSgnApproxProofs History_C10.
 Set Warnings "-notation-overridden,-ambiguous-paths".
 From mathcomp Require Import all_ssreflect all_algebra all_real_closed.
 From mathcomp Require Import ssrZ zify.
 Set Warnings "notation-overridden,ambiguous-paths".
-From LP Require Import EvalSgnReal.
+From LP Require Import Bounds BoundsProofs EvalSgnReal EvalSgnElim EvalSgnCompose.
+(* several layers define sc_consistent / ri_sgn / mwf ...: the C10 names win *)
+Import EvalSgn EvalSgnProofs EvalSgnReal.
 Import Order.TTheory GRing.Theory Num.Theory.
 Local Open Scope ring_scope.
 (* mathcomp rebinds the delimiters %ZZ (int) and %NN (nat): stdlib Z / N literals are written %ZZ / %NN here *)
@@ -187,4 +190,137 @@ split; first by [].
 split; first by rewrite /= mulr0 addr0 mul1r -zRD.
 split; first by vm_compute.
 by rewrite rsgn_gt0 // ltr01.
+Qed.
+
+(* ================================================================ 5. reducing the premises (follow-up)
+   bound_correct is no premise of C10_sgn_exact_cond: the exponent is the one the model computes from B and the bound
+   is C10_root_bound.  The same for the loop alone: *)
+Theorem C10_sgn_loop_eliminant_cond : forall (R : realFieldType) fuel (approx : nat -> rint) (B : seq Z) (v : R) s i,
+  (forall j, rint_wf (approx j)) -> (forall j, in_rint (approx j) v) ->          (* encloses *)
+  strip_zeros B <> [::] -> hornerR B v = 0 ->                                     (* annihilates *)
+  sgn_loop fuel approx (root_lower_bound B) i = Some s -> s = rsgn v.
+Proof. exact sgn_loop_eliminant. Qed.
+Print Assumptions C10_sgn_loop_eliminant_cond.
+
+(* ---- 5a. rational / dyadic / integer assignments  [FULL: no premise about the library's computation]
+   coef_sgn_numeric = the two numeric exits of coefficient_sgn (C numeric; C_rat numeric after evaluate_rationals).
+   Whenever an exit is taken the answer is the sign of the exact value ... *)
+Theorem C10_sgn_numeric_exit : forall order M rho C s,
+  (forall x p q, M x = Some (p, q) -> Z.lt 0 q) -> mp_wf C = true ->
+  coef_sgn_numeric order M C = Some s -> s = qc_sgn (mp_evalQ (subst_rho order M rho) C).
+Proof. exact coef_sgn_numeric_correct. Qed.
+Print Assumptions C10_sgn_numeric_exit.
+
+(* ... and when every variable of the (canonical) polynomial has a rational value an exit IS taken *)
+Theorem C10_sgn_rational_assignment : forall order M C rho,
+  (forall x p q, M x = Some (p, q) -> Z.lt 0 q) -> mp_wf C = true -> vars_in order C ->
+  (forall x, List.In x order -> M x <> None) ->
+  exists s, coef_sgn_numeric order M C = Some s /\ s = qc_sgn (mp_evalQ (subst_rho order M rho) C).
+Proof. exact coef_sgn_rational_assignment. Qed.
+Print Assumptions C10_sgn_rational_assignment.
+
+Theorem C10_sign_of_rational_in_real_field : forall (R : realFieldType) (q : Qc), rsgn (QRc R q) = qc_sgn q.
+Proof. exact rsgn_QRc. Qed.
+Print Assumptions C10_sign_of_rational_in_real_field.
+
+(* ---- 5b. encloses, from C15  [FULL for RATIONAL members]
+   value_approx = coefficient_value_approx on the C15 model of rational_interval_pow / mul / add (aliasing and
+   pre-used outputs as in the C loop).  If every variable's (rational) value lies in its interval then the value of
+   the polynomial lies in the computed interval, which satisfies the data-structure invariant. *)
+Theorem C10_value_approx_encloses : forall order m rho C,
+  (forall x, rwf (m x)) -> (forall x, rin (this (rho x)) (m x)) ->
+  EvalSgnApproxProofs.mwf C -> vars_in order C ->
+  rin (this (mp_evalQ rho C)) (value_approx order m C) /\ rwf (value_approx order m C).
+Proof. exact value_approx_encloses. Qed.
+Print Assumptions C10_value_approx_encloses.
+
+(* membership of a stdlib rational in a C15 interval is membership of its image in the interval of the exit logic *)
+Theorem C10_interval_bridge : forall (R : realFieldType) I x, rwf I -> rin x I ->
+  rint_wf (of_ritv I) /\ in_rint (of_ritv I) (QR R x).
+Proof. by move=> R I x W H; split; [exact: rint_wf_of_ritv|exact: in_rint_of_rin]. Qed.
+Print Assumptions C10_interval_bridge.
+
+(* the interval stage with the MODEL's enclosures, all remaining variables rational-valued: only `annihilates` left *)
+Theorem C10_sgn_rational_values_cond : forall (R : realFieldType) fuel order (m : nat -> var -> ritv) (rho : var -> Qc) C_rat (B : seq Z) s,
+  (forall j x, rwf (m j x)) -> (forall j x, rin (this (rho x)) (m j x)) ->
+  EvalSgnApproxProofs.mwf C_rat -> vars_in order C_rat ->
+  strip_zeros B <> [::] -> hornerR B (QRc R (mp_evalQ rho C_rat)) = 0 ->       (* annihilates *)
+  coef_sgn_core fuel (fun j => of_ritv (value_approx order (m j) C_rat)) B = Some s ->
+  s = rsgn (QRc R (mp_evalQ rho C_rat)).
+Proof. exact coef_sgn_rational_values. Qed.
+Print Assumptions C10_sgn_rational_values_cond.
+
+(* ---- 5c. annihilates, one algebraic variable, from C04  [FULL relative to the reference resultant]
+   eliminant1 z y C_rat f = the coefficient list in z of Res_y (z - C_rat, f), Res = the reference resultant of C04.
+   For every real root alpha of f (degree >= 1, leading coefficient <> 0) the value of C_rat at y = alpha is a root. *)
+Theorem C10_eliminant_annihilates : forall (R : realFieldType) z y C_rat (f : seq Z) (alpha : R),
+  z <> y -> mp_wf C_rat -> mp_degree z C_rat = N0 ->
+  (1 < size f)%N -> List.last f Z0 <> Z0 -> hornerR f alpha = 0 ->
+  hornerR (eliminant1 z y C_rat f) (mp_evalR (ptz y alpha) C_rat) = 0.
+Proof. exact eliminant1_annihilates. Qed.
+Print Assumptions C10_eliminant_annihilates.
+
+(* one elimination step in general (any number of other variables, valued by rho) *)
+Theorem C10_elimination_step : forall (R : realFieldType) (rho : var -> R) y A (f : seq Z) (alpha : R),
+  BoundsProofs.mwf A -> A <> [::] -> (1 < size f)%N -> List.last f Z0 <> Z0 ->
+  hornerR f alpha = 0 -> mp_evalR (upd rho y alpha) A = 0 ->
+  mp_evalR rho (elim_alg y A f) = 0.
+Proof. exact elim_alg_vanishes. Qed.
+Print Assumptions C10_elimination_step.
+
+(* one proper algebraic variable: premises left = encloses (C15 over a real field) and "the eliminant is not 0" *)
+Theorem C10_sgn_one_algebraic_cond : forall (R : realFieldType) fuel (approx : nat -> rint) z y C_rat (f : seq Z) (alpha : R) s,
+  z <> y -> mp_wf C_rat -> mp_degree z C_rat = N0 ->
+  (1 < size f)%N -> List.last f Z0 <> Z0 -> hornerR f alpha = 0 ->
+  let v := mp_evalR (ptz y alpha) C_rat in
+  let B := eliminant1 z y C_rat f in
+  (forall j, rint_wf (approx j)) -> (forall j, in_rint (approx j) v) ->           (* encloses *)
+  strip_zeros B <> [::] ->
+  coef_sgn_core fuel approx B = Some s -> s = rsgn v.
+Proof. exact coef_sgn_one_algebraic. Qed.
+Print Assumptions C10_sgn_one_algebraic_cond.
+
+(* ---- 5d. end to end for one remaining variable with a rational value (an algebraic number that is secretly
+   rational): enclosures by the model of coefficient_value_approx, eliminant by the reference resultant; the only
+   premise besides the input conditions is the decidable fact that the computed eliminant is not the zero polynomial *)
+Theorem C10_sgn_one_variable_rational : forall (R : realFieldType) fuel z y (m : nat -> ritv) (a : Qc) C_rat (f : seq Z) s,
+  z <> y -> mp_wf C_rat -> vars_in [:: y] C_rat -> mp_degree z C_rat = N0 ->
+  (1 < size f)%N -> List.last f Z0 <> Z0 -> hornerR f (QRc R a) = 0 ->
+  (forall j, rwf (m j)) -> (forall j, rin (this a) (m j)) ->
+  let rho := fun x : var => if N.eqb x y then a else Q2Qc 0 in
+  let box := fun j (x : var) => if N.eqb x y then m j else ri_zero in
+  let B := eliminant1 z y C_rat f in
+  strip_zeros B <> [::] ->
+  coef_sgn_core fuel (fun j => of_ritv (value_approx [:: y] (box j) C_rat)) B = Some s ->
+  s = rsgn (QRc R (mp_evalQ rho C_rat)).
+Proof. exact coef_sgn_one_variable_rational. Qed.
+Print Assumptions C10_sgn_one_variable_rational.
+
+(* non-vacuity: the eliminants the model computes for  y^2 - 2 at sqrt 2,  y at sqrt 2,  3y - 1 at the roots of
+   (y^2 - 2)(3y - 1): z^2, z^2 - 2, -3z^3 - 6z^2 + 51z *)
+Example C10_eliminant_examples :
+  eliminant1 9%NN 0%NN [:: ([:: (0%NN, 2%NN)], 1%ZZ); ([::], (-2)%ZZ)] [:: (-2)%ZZ; 0%ZZ; 1%ZZ] = [:: 0%ZZ; 0%ZZ; 1%ZZ] /\
+  eliminant1 9%NN 0%NN [:: ([:: (0%NN, 1%NN)], 1%ZZ)] [:: (-2)%ZZ; 0%ZZ; 1%ZZ] = [:: (-2)%ZZ; 0%ZZ; 1%ZZ] /\
+  eliminant1 9%NN 0%NN [:: ([:: (0%NN, 1%NN)], 3%ZZ); ([::], (-1)%ZZ)] [:: 2%ZZ; (-6)%ZZ; (-1)%ZZ; 3%ZZ] = [:: 0%ZZ; 51%ZZ; (-6)%ZZ; (-3)%ZZ].
+Proof. by vm_compute. Qed.
+
+(* non-vacuity of C10_sgn_one_variable_rational: 3y - 3 at y = 1 (root of y^2 - 1... here f = y - 1 doubled to
+   degree 2: y^2 - 2y + 1), enclosed by the point interval [1]: the model answers 0 *)
+Example C10_sgn_one_variable_rational_nonvacuous : forall R : realFieldType,
+  let C_rat : mpoly := [:: ([:: (0%NN, 1%NN)], 3%ZZ); ([::], (-3)%ZZ)] in
+  let f := [:: 1%ZZ; (-2)%ZZ; 1%ZZ] in
+  let a := Q2Qc 1 in
+  let m := fun _ : nat => gi_point rat_ops (1%ZZ, 1%ZZ) in
+  let box := fun (j : nat) (x : var) => if N.eqb x 0%NN then m j else ri_zero in
+  [/\ mp_wf C_rat, vars_in [:: 0%NN] C_rat, hornerR f (QRc R a) = 0 & (forall j, rwf (m j) /\ rin (this a) (m j))] /\
+  strip_zeros (eliminant1 9%NN 0%NN C_rat f) <> [::] /\
+  coef_sgn_core (S O) (fun j => of_ritv (value_approx [:: 0%NN] (box j) C_rat)) (eliminant1 9%NN 0%NN C_rat f) = Some 0%ZZ.
+Proof.
+move=> R C_rat f a m box; split; [split|split].
+- by [].
+- by move=> t [<-|[<-|[]]] ve //= [<-|[]] /=; left.
+- by rewrite QRc1 /= mulr0 addr0 !mul1r -!zRD.
+- by move=> j; split; [case: (ri_point_ok (1%ZZ, 1%ZZ)) => //; split|rewrite /rin /Qin /=].
+- by vm_compute.
+- by vm_compute.
 Qed.
